@@ -178,26 +178,47 @@ fn check(r: &Report, w: &Worlds, c: &Case, verbose: bool) {
     if verbose {
         println!("case {c:?}\n  reference key bytes ({}): {}\n  reference token: {want_token:?}", want_key.as_ref().map(|k| k.len()).unwrap_or(0), want_key.as_ref().map(|k| vcore::hex(&k[..k.len().min(64)])).unwrap_or_else(|| "refused (component > 65535 bytes)".into()));
     }
-    // 1. compute_partition_key
-    let got_key = catch(std::panic::AssertUnwindSafe(|| ps.compute_partition_key(&values)));
-    match (&got_key, &want_key) {
-        (Err(p), _) => r.violation("keys:panic", &format!("compute_partition_key panicked for {c:?}: {p}"), c.to_json()),
-        (Ok(Ok(g)), Some(wk)) if g.as_ref() == wk.as_slice() => {}
-        (Ok(Ok(g)), Some(wk)) => r.violation("keys:partition-key", &format!("compute_partition_key for {c:?}: got {} bytes {}.., server-side framing is {} bytes {}..", g.len(), vcore::hex(&g[..g.len().min(24)]), wk.len(), vcore::hex(&wk[..wk.len().min(24)])), c.to_json()),
-        (Ok(Ok(_)), None) => r.violation("keys:oversize-accepted", &format!("compute_partition_key accepted a composite key with a component > 65535 bytes: {c:?}"), c.to_json()),
-        (Ok(Err(_)), None) => {}
-        (Ok(Err(e)), Some(_)) => r.violation("keys:partition-key-error", &format!("compute_partition_key failed for {c:?}: {e}"), c.to_json()),
-    }
-    // 2. calculate_token
-    let got_tok = catch(std::panic::AssertUnwindSafe(|| ps.calculate_token(&values).map(|o| o.map(|t| t.value()))));
-    match (&got_tok, want_token) {
-        (Err(p), _) => r.violation("keys:panic", &format!("calculate_token panicked for {c:?}: {p}"), c.to_json()),
-        (Ok(Ok(None)), Some(_)) if k == 0 => {} // not token aware: nothing to route by
-        (Ok(Ok(Some(g))), Some(wt)) if *g == wt && k > 0 => {}
-        (Ok(Ok(g)), Some(wt)) => r.violation(if is_cdc { "keys:token:cdc" } else { "keys:token" }, &format!("calculate_token for {c:?}: driver {g:?}, server-side partitioner gives {wt}"), c.to_json()),
-        (Ok(Ok(g)), None) => r.violation("keys:oversize-accepted", &format!("calculate_token produced {g:?} for a composite key with a component > 65535 bytes: {c:?}"), c.to_json()),
-        (Ok(Err(_)), None) => {}
-        (Ok(Err(e)), Some(_)) => r.violation("keys:token-error", &format!("calculate_token failed for {c:?}: {e}"), c.to_json()),
+    // Every handle to the statement a user can hold must route identically: the statement as
+    // prepared, a clone, a clone of a clone, a clone reconfigured through the setters, and the
+    // CachingSession path (unconfigured cached handle -> configured handle).
+    let variants: Vec<(&str, PreparedStatement)> = {
+        let clone1 = ps.clone();
+        let clone2 = clone1.clone();
+        let mut tuned = ps.clone();
+        tuned.set_page_size(77);
+        tuned.set_consistency(scylla::statement::Consistency::One);
+        tuned.set_is_idempotent(true);
+        tuned.set_tracing(true);
+        tuned.set_timestamp(Some(42));
+        tuned.set_request_timeout(Some(std::time::Duration::from_secs(3)));
+        let tuned_clone = tuned.clone();
+        let cached = hook::through_unconfigured_handle(&ps);
+        let cached_clone = cached.clone();
+        vec![("prepared", ps), ("clone", clone1), ("clone-of-clone", clone2), ("setters", tuned), ("clone-after-setters", tuned_clone), ("cached-handle", cached), ("clone-of-cached-handle", cached_clone)]
+    };
+    for (variant, ps) in &variants {
+        let vkey = |k: &str| if *variant == "prepared" { k.to_string() } else { format!("{k}:{variant}") };
+        // 1. compute_partition_key
+        let got_key = catch(std::panic::AssertUnwindSafe(|| ps.compute_partition_key(&values)));
+        match (&got_key, &want_key) {
+            (Err(p), _) => r.violation(&vkey("keys:panic"), &format!("compute_partition_key panicked for {c:?} [handle: {variant}]: {p}"), c.to_json()),
+            (Ok(Ok(g)), Some(wk)) if g.as_ref() == wk.as_slice() => {}
+            (Ok(Ok(g)), Some(wk)) => r.violation(&vkey("keys:partition-key"), &format!("compute_partition_key for {c:?} [handle: {variant}]: got {} bytes {}.., server-side framing is {} bytes {}..", g.len(), vcore::hex(&g[..g.len().min(24)]), wk.len(), vcore::hex(&wk[..wk.len().min(24)])), c.to_json()),
+            (Ok(Ok(_)), None) => r.violation(&vkey("keys:oversize-accepted"), &format!("compute_partition_key accepted a composite key with a component > 65535 bytes: {c:?}"), c.to_json()),
+            (Ok(Err(_)), None) => {}
+            (Ok(Err(e)), Some(_)) => r.violation(&vkey("keys:partition-key-error"), &format!("compute_partition_key failed for {c:?} [handle: {variant}]: {e}"), c.to_json()),
+        }
+        // 2. calculate_token
+        let got_tok = catch(std::panic::AssertUnwindSafe(|| ps.calculate_token(&values).map(|o| o.map(|t| t.value()))));
+        match (&got_tok, want_token) {
+            (Err(p), _) => r.violation(&vkey("keys:panic"), &format!("calculate_token panicked for {c:?} [handle: {variant}]: {p}"), c.to_json()),
+            (Ok(Ok(None)), Some(_)) if k == 0 => {} // not token aware: nothing to route by
+            (Ok(Ok(Some(g))), Some(wt)) if *g == wt && k > 0 => {}
+            (Ok(Ok(g)), Some(wt)) => r.violation(&vkey(if is_cdc { "keys:token:cdc" } else { "keys:token" }), &format!("calculate_token for {c:?} [handle: {variant}]: driver {g:?}, server-side partitioner gives {wt}"), c.to_json()),
+            (Ok(Ok(g)), None) => r.violation(&vkey("keys:oversize-accepted"), &format!("calculate_token produced {g:?} for a composite key with a component > 65535 bytes: {c:?}"), c.to_json()),
+            (Ok(Err(_)), None) => {}
+            (Ok(Err(e)), Some(_)) => r.violation(&vkey("keys:token-error"), &format!("calculate_token failed for {c:?} [handle: {variant}]: {e}"), c.to_json()),
+        }
     }
     // 3. ClusterState::compute_token with the key values in partition-key order
     if k > 0 {
@@ -365,6 +386,7 @@ fn main() {
             sampled += 1;
         }
     }
+    r.counters.add("statement_handles_per_case", 7);
     r.counters.add("arrangements", n_arr);
     r.counters.add("cases", cases.len() as u64);
     r.counters.add("sampled_wide_statements", sampled);
@@ -373,7 +395,7 @@ fn main() {
     let r_ref = &r;
     let w_ref = &w;
     vcore::par::for_each(jobs, 8, cases.into_iter(), |c| check(r_ref, w_ref, &c, false));
-    r.set_rule(&format!("E-ENUM. Real PreparedStatements from RESULT/Prepared body bytes (production parser + constructor; partitioner from the table's partitioner string in a real ClusterState). k=1..{kmax} key components among m=k..{mmax} bind markers in EVERY injective arrangement (positions x order); component lengths: all tuples over {{0,1,15,16,17}} for k<=2{} and rotating assignments otherwise, plus 65535 / 65536 in every position; non-key markers valued / NULL / unset / long; global and per-column table specs; CDC tables with a single key at every marker position; constructed preimages (cqlref::murmur3::invert_block16 / composite_preimage): single-column 16-byte keys and two-component composite keys whose framed stream has RAW Murmur3 hash exactly i64::MIN (token must be i64::MAX), MIN+1, MAX, -1, 0. Oracles: compute_partition_key == len16|bytes|0 framing in KEY order (single column: raw bytes); calculate_token and ClusterState::compute_token == reference Murmur3/CDC token; 65536-byte component of a composite key refused. distinct_nontrivial = cases with a composite key whose marker order differs from key order or with interleaved non-key markers.", if thorough { " (k<=3 thorough)" } else { "" }));
+    r.set_rule(&format!("E-ENUM. Real PreparedStatements from RESULT/Prepared body bytes (production parser + constructor; partitioner from the table's partitioner string in a real ClusterState). k=1..{kmax} key components among m=k..{mmax} bind markers in EVERY injective arrangement (positions x order); component lengths: all tuples over {{0,1,15,16,17}} for k<=2{} and rotating assignments otherwise, plus 65535 / 65536 in every position; non-key markers valued / NULL / unset / long; global and per-column table specs; CDC tables with a single key at every marker position; constructed preimages (cqlref::murmur3::invert_block16 / composite_preimage): single-column 16-byte keys and two-component composite keys whose framed stream has RAW Murmur3 hash exactly i64::MIN (token must be i64::MAX), MIN+1, MAX, -1, 0. Every partition-key/token computation runs on 7 handles of each statement: as prepared, clone, clone of clone, clone reconfigured through setters (page size, consistency, idempotence, tracing, timestamp, timeout), its clone, the CachingSession path (unconfigured cached handle -> configured handle) and its clone. Oracles: compute_partition_key == len16|bytes|0 framing in KEY order (single column: raw bytes); calculate_token and ClusterState::compute_token == reference Murmur3/CDC token; 65536-byte component of a composite key refused. distinct_nontrivial = cases with a composite key whose marker order differs from key order or with interleaved non-key markers.", if thorough { " (k<=3 thorough)" } else { "" }));
     r.set_exhaustive(true);
     r.sample(json!({"markers":5,"pk_marker":[4,0,3],"meaning":"key component 0 bound by marker 4, component 1 by marker 0, component 2 by marker 3 (the repo's single shuffled unit test)"}));
     r.assume("PreparedStatement is obtained through hook H-PREPARED from response body bytes instead of Session::prepare against a mock node; the partitioner choice mirrors Session::extract_partitioner_name (6 lines) instead of calling it");
